@@ -41,6 +41,7 @@ pub struct End {
 }
 
 pub struct Session {
+    _sink: Option<Arc<tokio::net::UdpSocket>>,
     rt: tokio::runtime::Runtime,
     pub ends: Vec<End>,
     /// datagrams seen on the wire, labelled with the index of the endpoint that RECEIVED them (0 = delivered to ends[0] = the client)
@@ -81,6 +82,7 @@ impl Session {
         let rt = tokio::runtime::Builder::new_current_thread().enable_all().build().unwrap();
         let wire = Arc::new(parking_lot::Mutex::new(vec![]));
         let gate = Arc::new(AtomicUsize::new(gate));
+        let mut sink = None;
         let ends = rt.block_on(async {
             let a = Arc::new(tokio::net::UdpSocket::bind("127.0.0.1:0").await.unwrap());
             let b = Arc::new(tokio::net::UdpSocket::bind("127.0.0.1:0").await.unwrap());
@@ -90,11 +92,11 @@ impl Session {
                 let cli = mk_end(true, a, ba, 0, wire.clone(), gate.clone()).await;
                 vec![cli, srv]
             } else {
-                std::mem::forget(b); // sink: keeps the port open, replies are never read
+                sink = Some(b.clone()); // sink: keeps the port open for the session's lifetime, replies are never read
                 vec![mk_end(lone_is_client, a, ba, 0, wire.clone(), gate.clone()).await]
             }
         });
-        Session { rt, ends, wire, gate, cum_alloc: 0, cum_in: 0, n_in: 0, alloc_flagged: false }
+        Session { _sink: sink, rt, ends, wire, gate, cum_alloc: 0, cum_in: 0, n_in: 0, alloc_flagged: false }
     }
     pub fn step(&self, ms: u64) { self.rt.block_on(async { tokio::time::sleep(Duration::from_millis(ms)).await }); }
     pub fn connected(&self) -> bool {
